@@ -11,11 +11,15 @@ pub mod c09;
 pub mod c10;
 pub mod c11;
 pub mod c12;
+pub mod c19;
 pub mod c20;
+pub mod c23;
 pub mod c28;
 pub mod c31;
 pub mod c32;
 pub mod c33;
+pub mod c34;
+pub mod c35;
 pub mod c36;
 pub mod c36_fmt;
 pub mod c36_model;
@@ -35,17 +39,21 @@ pub fn property(id: &str, ctx: &Ctx) -> Option<Property> {
         "C10" => c10::property(ctx),
         "C11" => c11::property(ctx),
         "C12" => c12::property(ctx),
+        "C19" => c19::property(ctx),
         "C20" => c20::property_c20(ctx),
         "C21" => c20::property_c21(ctx),
         "C22" => c20::property_c22(ctx),
+        "C23" => c23::property(ctx),
         "C28" => c28::property(ctx),
         "C31" => c31::property(ctx),
         "C32" => c32::property(ctx),
         "C33" => c33::property(ctx),
+        "C34" => c34::property(ctx),
+        "C35" => c35::property(ctx),
         "C36" => c36::property(ctx),
         "C38" => c38::property(ctx),
         _ => return None,
     })
 }
 
-pub const ALL: &[&str] = &["C01", "C02", "C04", "C05", "C06", "C07", "C08", "C09", "C10", "C11", "C12", "C20", "C21", "C22", "C28", "C31", "C32", "C33", "C36", "C38"];
+pub const ALL: &[&str] = &["C01", "C02", "C04", "C05", "C06", "C07", "C08", "C09", "C10", "C11", "C12", "C19", "C20", "C21", "C22", "C23", "C28", "C31", "C32", "C33", "C34", "C35", "C36", "C38"];
